@@ -22,6 +22,9 @@ Require Import Clarabel.Qdldl.SpecEtree Clarabel.Qdldl.LemmasEtreeAnc Clarabel.Q
 Require Import Clarabel.Qdldl.SpecLnz Clarabel.Qdldl.LemmasLnzEtree Clarabel.Qdldl.LemmasLnzFactor
         Clarabel.Qdldl.SpecPermEntries Clarabel.Qdldl.LemmasPermEntries
         Clarabel.Qdldl.SpecEndToEnd Clarabel.Qdldl.LemmasGlue Clarabel.Qdldl.LemmasEndToEnd.
+Require Import Clarabel.Qdldl.ModelDriver Clarabel.Qdldl.SpecDriverIR Clarabel.Qdldl.LemmasDriverIR
+        Clarabel.Qdldl.SpecDriverReg Clarabel.Qdldl.LemmasDriverReg
+        Clarabel.Qdldl.SpecDriverMisc Clarabel.Qdldl.LemmasDriverMisc.
 
 (** (a) ordering vectors: accepted iff a permutation, the result is the inverse; the code
     before the fix is refuted (finding F1) *)
@@ -166,3 +169,80 @@ Proof. exact lnz_exact_ok. Qed.
 (** END TO END: new (numeric, regularisation off) + solve returns x with sym(A) x = b *)
 Theorem C12_qnew_solve_correct : stmt_qnew_solve_correct.
 Proof. exact qnew_solve_correct_ok. Qed.
+
+(** ROUND 3 — the code that drives the kernel (Qdldl/ModelDriver.v).
+    Iterative refinement: at most max_iter passes; the steps are accepts followed by at most one
+    stop / non-finite step; the returned x is a candidate whose residual norm was computed; ok is
+    false iff a computed norm was non-finite; over the reals (stop_ratio >= 1) the residual norm of
+    the returned x is <= that of the first LDL solve and the accepted norms are non-increasing *)
+Theorem C12_ir_run_trace : stmt_ir_run_trace.
+Proof. exact ir_run_trace_ok. Qed.
+Theorem C12_ir_passes_bounded : stmt_ir_passes_bounded.
+Proof. exact ir_passes_bounded_ok. Qed.
+Theorem C12_ir_shape : stmt_ir_shape.
+Proof. exact ir_shape_ok. Qed.
+Theorem C12_ir_ok_iff_finite : stmt_ir_ok_iff_finite.
+Proof. exact ir_ok_iff_finite_ok. Qed.
+Theorem C12_ir_ok_field : stmt_ir_ok_field.
+Proof. exact ir_ok_field_ok. Qed.
+Theorem C12_ir_tolerance_exit_gen : stmt_ir_tolerance_exit_gen.
+Proof. exact ir_tolerance_exit_gen_ok. Qed.
+Theorem C12_ir_tolerance_exit : stmt_ir_tolerance_exit.
+Proof. exact ir_tolerance_exit_ok. Qed.
+Theorem C12_ir_monotone : stmt_ir_monotone.
+Proof. exact ir_monotone_ok. Qed.
+Theorem C12_norm_inf_nonneg : stmt_norm_inf_nonneg.
+Proof. exact norm_inf_nonneg_ok. Qed.
+Theorem C12_ir_examples : stmt_ir_examples.
+Proof. exact ir_examples_ok. Qed.
+(** static regularisation bookkeeping: both copies are written, the KKT copy is restored, the
+    factorisation held afterwards is a fresh numeric factorisation of K with its diagonal shifted
+    by +eps / -eps according to dsigns, and the residual of the refinement is measured against
+    the UN-regularised K (d_K unchanged + refine_error_dense) *)
+Theorem C12_drv_new_inv : stmt_drv_new_inv.
+Proof. exact drv_new_inv_ok. Qed.
+Theorem C12_drv_update_inv : stmt_drv_update_inv.
+Proof. exact drv_update_inv_ok. Qed.
+Theorem C12_drv_scale_inv : stmt_drv_scale_inv.
+Proof. exact drv_scale_inv_ok. Qed.
+Theorem C12_reg_restores_K_strong : stmt_reg_restores_K_strong.
+Proof. exact reg_restores_K_strong_ok. Qed.
+Theorem C12_reg_restores_K : stmt_reg_restores_K.
+Proof. exact reg_restores_K_ok. Qed.
+Theorem C12_reg_refactor_eq_qnew : stmt_reg_refactor_eq_qnew.
+Proof. exact reg_refactor_eq_qnew_ok. Qed.
+Theorem C12_reg_refactor_is_fresh : stmt_reg_refactor_is_fresh.
+Proof. exact reg_refactor_is_fresh_ok. Qed.
+Theorem C12_reg_refactor_failure : stmt_reg_refactor_failure.
+Proof. exact reg_refactor_failure_ok. Qed.
+Theorem C12_dr_example : stmt_dr_example.
+Proof. exact dr_example_ok. Qed.
+Theorem C12_symv_entries : stmt_symv_entries.
+Proof. exact symv_entries_ok. Qed.
+Theorem C12_symv_dense : stmt_symv_dense.
+Proof. exact symv_dense_ok. Qed.
+Theorem C12_refine_error_dense : stmt_refine_error_dense.
+Proof. exact refine_error_dense_ok. Qed.
+(** dynamic regularisation over the reals: every returned pivot has the sign prescribed by
+    Dsigns and D[k]*s >= min(eps, delta) > 0 ("magnitude >= delta" is false in general: refuted) *)
+Theorem C12_dynamic_reg_split : stmt_dynamic_reg_split.
+Proof. exact dynamic_reg_split_ok. Qed.
+Theorem C12_dynamic_reg_signs : stmt_dynamic_reg_signs.
+Proof. exact dynamic_reg_signs_ok. Qed.
+Theorem C12_dynamic_reg_sign_strict : stmt_dynamic_reg_sign_strict.
+Proof. exact dynamic_reg_sign_strict_ok. Qed.
+Theorem C12_dynamic_reg_delta_bound : stmt_dynamic_reg_delta_bound.
+Proof. exact dynamic_reg_delta_bound_ok. Qed.
+Theorem C12_dynamic_reg_delta_bound_refuted : stmt_dynamic_reg_delta_bound_refuted.
+Proof. exact dynamic_reg_delta_bound_refuted_ok. Qed.
+Theorem C12_dynamic_reg_example : stmt_dynamic_reg_example.
+Proof. exact dynamic_reg_example_ok. Qed.
+(** backend dispatch *)
+Theorem C12_dispatch_valid : stmt_dispatch_valid.
+Proof. exact dispatch_valid_ok. Qed.
+Theorem C12_dispatch_cases : stmt_dispatch_cases.
+Proof. exact dispatch_cases_ok. Qed.
+Theorem C12_dispatch_faer_needs_feature : stmt_dispatch_faer_needs_feature.
+Proof. exact dispatch_faer_needs_feature_ok. Qed.
+Theorem C12_validate_cases : stmt_validate_cases.
+Proof. exact validate_cases_ok. Qed.
